@@ -226,7 +226,7 @@ Proof.
 Qed.
 
 Lemma globals_keys_norm : keys_norm globals.
-Proof. intros kv [H|[]]. subst kv. reflexivity. Qed.
+Proof. intros kv [H|[H|[H|[]]]]; subst kv; reflexivity. Qed.
 
 Lemma default_same b d : keys_norm b -> eval_default b d = spec_default b d.
 Proof.
